@@ -508,6 +508,24 @@ def s_all(F, res):
             hit = True
             owner = f.get("owner") or p
             res.add([finding("S-ALL", "%s|no truncation" % owner, where(f, trunc[0][1]), "%s takes only `%s()` of an item list while building redeemers: the remaining items (UTxOs of the input / policies of the block) get no redeemer" % (owner.split("::")[-1], trunc[0][0]))])
+    # ... nor collapse it by a key: blocks (or items) collected into a map / set under a key that is only a part of them - the
+    # policy of a mint / burn block, say - lose every element but the last per key *before* their redeemers are looked at, so a
+    # block's redeemer vanishes when a later block on the same key has none
+    from ..common import keyed_collapses
+    for p in sorted(reach):
+        f = F.fns.get(p)
+        if f is None or f["crate"] != "tx3_cardano" or f.get("derived") or not p.startswith(C):
+            continue
+        owner = f.get("owner") or p
+        # only the functions that build Redeemer values (or their closures): the final map of redeemers by (tag, index) and
+        # the index helpers' sorted key lists are not collapses of items
+        fam = [g for g in F.fns.values() if (g.get("owner") or g["path"]) == owner]
+        if not any(s_["rv"]["k"] == "agg" and s_["rv"].get("adt", "").endswith("::Redeemer") for g in fam for _, _, s_ in mir.stmts(g)):
+            continue
+        cols = keyed_collapses(F, f)
+        if cols:
+            hit = True
+            res.add([finding("S-ALL", "%s|no collapse by key" % owner, where(f, cols[0][0]), "%s collects the items it builds redeemers for into a keyed container (%s): of several blocks with the same key only the last survives, and with it only *its* redeemer - an earlier block's redeemer is silently dropped" % (owner.split("::")[-1], cols[0][1]))])
     res.count("functions in the redeemer closure", n)
     res.floor("functions in the redeemer closure", n, 8)
     if not hit:
